@@ -101,8 +101,11 @@ def phase_a(seed, tier, i, st):
         return {"property": NAME, "family": st["family"], "steps": steps, "loglevel": loglevel}
     steps = [dict(base, via="property", backend="sim-api", fault={"kind": "ok", "tie": 0})]
     if knotted:
-        steps.append(dict(base, via="argument", backend="cbc-wrapper", fault={"kind": "ok", "tie": cfg.randrange(1 << 12)}))
-        steps.append(dict(base, via="property", backend="highs-wrapper", fault={"kind": "ok", "tie": cfg.randrange(1 << 12)}))
+        # (a third of the healthy answers through the wrappers carry round-off residue on the zero columns)
+        steps.append(dict(base, via="argument", backend="cbc-wrapper",
+                          fault={"kind": cfg.choice(["ok", "ok", "ok_zero_noise"]), "tie": cfg.randrange(1 << 12)}))
+        steps.append(dict(base, via="property", backend="highs-wrapper",
+                          fault={"kind": cfg.choice(["ok", "ok", "ok_zero_noise"]), "tie": cfg.randrange(1 << 12)}))
         if i % 6 == 0:
             steps.append(dict(base, via=cfg.choice(["property", "argument"]), backend="real-cbc", fault={"kind": "ok"}))
     else:
@@ -214,7 +217,7 @@ def run_index(seed, tier, i, tmpdir):
         ties = tie_indexes(n_opt, plan["tie_cap"] if len(st["triples"]) <= 1500 else 6)
         base = {"triples": st["triples"], "op": "dot_bracket", "via": "argument", "backend": "sim-api"}
         run_b = {"property": NAME, "family": st["family"], "loglevel": run_a.get("loglevel"),
-                 "steps": [dict(base, fault={"kind": "ok", "tie": t}) for t in ties]}
+                 "steps": [dict(base, fault={"kind": "ok_zero_noise" if t % 4 == 3 else "ok", "tie": t}) for t in ties]}
         res_b = execute_run(run_b, tmpdir)
         digests.append(res_b["digest"])
         for v in res_b["violations"]:
